@@ -25,7 +25,7 @@ pub fn o_metadata(input: &[u8], p: &P) -> Out {
 			None => None,
 		};
 		// skip_frames keeps the read cheap, but needs exactly one Game End (it jumps to the last one)
-		let g = match read_slp(input, rg.n_ends == 1, false) {
+		let g = match read_slp(input, rg.n_ends == 1 && rg.rows.is_empty() && rg.gecko.is_none(), false) {
 			Ok(g) => g,
 			// beyond the library's nesting bound (needed so that hostile nesting cannot overflow the stack)
 			// a refusal is accepted; whatever IS accepted must make the whole trip
@@ -52,7 +52,7 @@ pub fn o_metadata(input: &[u8], p: &P) -> Out {
 		if j != want_j {
 			return Err(e("metadata-json", format!("metadata.json differs from the tree (key order counts): {}", String::from_utf8_lossy(&mj.data[..mj.data.len().min(300)]))));
 		}
-		let g2 = read_slpp(&arch, true).map_err(|f| e(&format!("slpp-read-failed:{}", f.key()), format!("peppi::read failed: {}", f.describe())))?;
+		let g2 = read_slpp(&arch, rg.rows.is_empty()).map_err(|f| e(&format!("slpp-read-failed:{}", f.key()), format!("peppi::read failed: {}", f.describe())))?;
 		let got2 = match &g2.metadata {
 			Some(m) => Some(ubj::from_json(m).map_err(|m| e("value-kind", m))?),
 			None => None,
@@ -204,5 +204,13 @@ pub fn run() {
 		let p = P { comp: (n % 3) as u8, class: if m.is_none() { "none" } else if depth(m.as_ref().unwrap()) > 100 { "deep-chain" } else { "tree" }, ..Default::default() };
 		eval_case("metadata", o_metadata, &bytes, &p, || short(&m), local);
 	});
+	{
+		let uni = crate::gen::universe(cx.quick());
+		par_each(uni.into_iter().enumerate(), |(i, abs), local| {
+			let bytes = Arc::new(record(&abs).doc.assemble());
+			let p = P { comp: (i % 3) as u8, class: if abs.metadata.is_none() { "none" } else { "universe" }, ..Default::default() };
+			eval_case("metadata", o_metadata, &bytes, &p, || abs.describe(), local);
+		});
+	}
 	finish(cx);
 }
